@@ -146,6 +146,8 @@ type Interp struct {
 	P      *Program
 	Cfg    *Config
 	Solver *smt.Solver
+	Solver2 *smt.Solver // optional cross-check solver
+	nCross, crossUnknown int
 
 	pc      []pcEntry
 	dsu     map[string]string
@@ -840,12 +842,16 @@ type PathResult struct {
 	Vars       int
 	SampleModel map[string]int64
 	Asserts, AssertQ int
+	Cross, CrossUnknown int
 }
 
 // Run executes the harness function along the decision prefix.
 func (it *Interp) Run(entry *ssa.Function) (res *PathResult) {
 	res = &PathResult{}
 	it.Solver.Reset()
+	if it.Solver2 != nil {
+		it.Solver2.Reset()
+	}
 	defer func() {
 		r := recover()
 		if r == nil || isPathEnd(r, "cut", "fault", "truncated", "done") {
@@ -889,6 +895,7 @@ func (it *Interp) Run(entry *ssa.Function) (res *PathResult) {
 		res.PCSize = len(it.pc)
 		res.Vars = len(it.vars)
 		res.Asserts, res.AssertQ = it.nAsserts, it.nAssertQ
+		res.Cross, res.CrossUnknown = it.nCross, it.crossUnknown
 	}()
 	main := &G{id: 0, name: "main"}
 	it.gs = append(it.gs, main)
